@@ -45,6 +45,8 @@ def parse_tree(s):
             return ("d", int(s[pos - 16:pos], 16))
         if c == "S":
             return ("S", hexrun())
+        if c == "L":            # a string handed over by address: the same value as a copied one
+            return ("S", hexrun())
         if c == "R":
             return ("R", hexrun())
         if c == "[":
